@@ -12,6 +12,7 @@ pyrepseq = boot.import_pyrepseq()
 D = pyrepseq.distance
 
 PROPERTY = "C12"
+QUICK_SCALE = 3
 RULE = ("exhaustive: every string of length 0..L over alphabets of 1, 2, 3, 4 letters for levenshtein_neighbors / "
         "hamming_neighbors (oracle universe = all strings of length 0..L+1), every subset of variable positions for length <= 4, "
         "next_nearest_neighbors for maxdistance 1..3 on short strings; random: amino-acid strings up to length 12 with runs "
